@@ -42,7 +42,7 @@ CONFIG = {
                  'EG.trivial_scc_rejected', 'memo.hit',
                  'root:A.U', 'root:E.R', 'root:A.R', 'root:imply',
                  'style:text', 'style:raw', 'style:ctls_obj', 'states:renamed',
-                 'family:nary_prefix'],
+                 'family:nary_prefix', 'history:mutation'],
     'rule': ('cases = (Kripke structure, CTL state formula, presentation '
              'style); enumerated: isomorphism-class representatives of all '
              'total structures with <=3 states over {p,q} x all formulas of '
@@ -139,7 +139,7 @@ def _attach_internal():
                 nk = nk_of(kripke)
                 memo = {}
                 LOG.hit('c01.memo')
-                for key, val in list(L.items()):
+                for key, val in list(L.items())[:300]:
                     t = tree_of(key)
                     if not reflang.checkable(t, 'CTL'):
                         continue
@@ -318,6 +318,48 @@ def nary_prefix_family(r, n):
     return out
 
 
+def mutation_history(ctx, r, k):
+    """One structure object queried, modified in place through its public API
+    (label sets returned by labels(s), add_edge, replace_labelling_function)
+    and queried again: each answer must be exact for the structure as it is
+    at that call."""
+    from pyModelChecking import CTL
+    nk = gen.random_structure(r, 5, atoms=('p', 'q'), nmin=2)
+    K = mcwork.kripke_of(nk)
+    forms = [('E', ('F', ('ap', 'p'))), ('A', ('G', ('ap', 'q'))),
+             ('E', ('G', ('ap', 'p'))), ('ap', 'p'),
+             ('A', ('U', ('ap', 'p'), ('ap', 'q'))),
+             gen.random_ctl(r, 2, ('p', 'q')), gen.random_ctl(r, 3, ('p', 'q'))]
+    LOG.sig['history:mutation'] += 1
+    for step in range(8):
+        for t in r.sample(forms, 3):
+            try:
+                CTL.modelcheck(K, mcwork.formula_arg('CTL', t, 'obj'))
+            except Exception:
+                pass
+        sts = list(K.states())
+        x = r.random()
+        if x < 0.4:
+            s_ = r.choice(sts)
+            a = r.choice(['p', 'q'])
+            if a in K.labels(s_):
+                K.labels(s_).discard(a)
+            else:
+                K.labels(s_).add(a)
+        elif x < 0.7:
+            a, b = r.choice(sts), r.choice(sts)
+            if b not in K.next(a):
+                K.add_edge(a, b)
+        elif x < 0.85:
+            K.replace_labelling_function(
+                {s_: set(a for a in ('p', 'q') if r.random() < 0.5)
+                 for s_ in sts})
+        else:
+            a = r.choice(sts)
+            if len(K.next(a)) > 1:
+                K.next(a).discard(r.choice(sorted(K.next(a), key=repr)))
+
+
 def run_case(nk, t, i, K=None):
     from pyModelChecking import CTL
     style = mcwork.STYLES[i % 4]
@@ -412,6 +454,10 @@ def run(ctx):
             continue
         run_case(rename_states(nk, k), npf[k % len(npf)], i)
         i += 1
+    for k in range(400 if ctx.quick else 8000):
+        rr = gen.rng(ctx.seed, PROP, ('mut', k))
+        if ctx.mine(k):
+            mutation_history(ctx, rr, k)
     for si, nk in enumerate(hostile_structures()):
         if not ctx.mine(si):
             continue
